@@ -266,7 +266,7 @@ Qed.
 
 Lemma same_key_iff o c : same_key o c = true <-> key o = key c.
 Proof.
-  unfold same_key, key. rewrite andb_true_iff, !str_eqb_eq. split.
+  unfold same_key, match_case, key. rewrite andb_true_iff, !str_eqb_eq. split.
   - intros [A B]. rewrite A, B. reflexivity.
   - intros H. inversion H. split; reflexivity.
 Qed.
@@ -711,7 +711,9 @@ Definition full_statement : Prop :=
   /\ (forall x, well_marked x = true -> kind_of (append_result x) = intended_kind x)
   /\ (forall t, map (fun c => (c_name c, kind_of (c_execs c))) (parse_go t) = map (fun x => (fst x, go_kind (snd x))) t)
   /\ (forall name d ds r, parse_results (d :: ds) [] = Some r ->
-        parse_output name false (negb (all_succeeded r)) (d :: ds) = r).
+        parse_output name false (negb (all_succeeded r)) (d :: ds) = r)
+  /\ (forall name no n atts,
+        counters (fst (second_report name no n atts)) = counters (first_report name no n atts)).
 
 (* witnesses *)
 Definition w_case (es : list exec) : tcase := mkCase (s "c") (s "A") es.
@@ -760,6 +762,15 @@ Proof.
   intros H. specialize (H (s "t") w_errors_only [] _ eq_refl). vm_compute in H. discriminate.
 Qed.
 
+(* a flaky target: attempt 1 fails, attempt 2 passes; the stored file is attempt 2's, so the second invocation
+   reports "1 passed" where the first reported "1 flake" *)
+Definition w_retry : list attempt :=
+  [mkAttempt true [DXml [XSuite (XS [mkX (s "c") (s "a") true false false 0 0 0 0] [])]];
+   mkAttempt false [DXml [XSuite (XS [mkX (s "c") (s "a") false false false 0 0 0 0] [])]]].
+Lemma refute_cached_equal :
+  ~ (forall name no n atts, counters (fst (second_report name no n atts)) = counters (first_report name no n atts)).
+Proof. intros H. specialize (H (s "t") false 2 w_retry). vm_compute in H. discriminate. Qed.
+
 Theorem full_statement_refuted : ~ full_statement.
 Proof. intros [H _]. exact (refute_partition H). Qed.
 
@@ -773,12 +784,14 @@ Definition refuted_classes : Prop :=
   /\ ~ (forall r, wf r -> target_passes 1 [r] = all_succeeded r)
   /\ ~ (forall d, parse_xml d = map to_case (doc_all d))
   /\ ~ (forall name d ds r, parse_results (d :: ds) [] = Some r ->
-         parse_output name false (negb (all_succeeded r)) (d :: ds) = r).
+         parse_output name false (negb (all_succeeded r)) (d :: ds) = r)
+  /\ ~ (forall name no n atts,
+         counters (fst (second_report name no n atts)) = counters (first_report name no n atts)).
 
 Theorem refuted_classes_hold : refuted_classes.
 Proof.
   split; [exact refute_partition|]. split; [exact refute_kinds|]. split; [exact refute_identity|].
-  split; [exact refute_single_pass|]. split; [|exact refute_exit_status].
+  split; [exact refute_single_pass|]. split; [|split; [exact refute_exit_status|exact refute_cached_equal]].
   intros H. exact (refute_parse_nested (H w_nested)).
 Qed.
 
